@@ -214,6 +214,21 @@ def run(prog, chk):
             if not is_value:
                 continue
             quoted = any(any(v in QUOTE_FUNCS for v in f.via) for f in flows)
+            if not quoted:
+                # the complete single-quote idiom: the value passes `str::replace('\'', "'\\''")` and the format
+                # literal wraps the argument in single quotes (inside '…' every character but ' is literal)
+                for f in flows:
+                    if f.kind == 'call' and (f.node.callee or "").endswith("str::replace"):
+                        pat = f.node.args[1] if len(f.node.args) > 1 else None
+                        rep = f.node.args[2] if len(f.node.args) > 2 else None
+                        pv = const_value(b, d, pat) if pat is not None else None
+                        rs = None
+                        if rep is not None:
+                            for o in origins(b, d, rep):
+                                if o.kind == 'const' and o.node.string is not None:
+                                    rs = o.node.string
+                        if pv == 39 and rs == "'\\''" and "='{" in snip.replace(" ", "") or (pv == 39 and rs == "'\\''" and "'{" in snip):
+                            quoted = True
             seen_printers.setdefault(which, [0, 0])
             seen_printers[which][0] += 1
             lit = (snip.split('"')[1] if '"' in snip else "")[:60]
